@@ -123,7 +123,9 @@ Record tdef := {
                             command, data entries, test part) - only the parts that vary *)
   t_cmd : tcmd;          (* the EFFECTIVE test command, structured *)
   t_files : list rfile;  (* IterRuntimeFiles, before de-duplication: outputs first, then data in order *)
-  t_bin : str            (* content of the test binary (the single output) *)
+  t_bin : str;           (* content of the test binary (the single output) *)
+  t_build : list str     (* what needsBuilding / the build cache key depend on: the non-runtime rule fields
+                            (label, declared deps, source names, outs, command) and the source contents *)
 }.
 
 (* the outcome of actually running the test of t with the test arguments a: what a fresh `plz test L -- a`
@@ -141,7 +143,8 @@ Record tsrc := {
   ts_rule : list str;    (* what ruleHash(runtime=true) writes before the test part *)
   ts_cmds : tcmds;
   ts_files : list rfile;
-  ts_bin : str
+  ts_bin : str;
+  ts_build : list str
 }.
 
 Fixpoint assoc {A} (k : str) (l : list (str * A)) : option A :=
@@ -194,7 +197,8 @@ Definition effective (cfg : str) (ts : tsrc) : tdef :=
   {| t_rule := ts_rule ts ++ test_part cfg (ts_cmds ts);
      t_cmd := snd (get_command cfg (ts_cmds ts));
      t_files := ts_files ts;
-     t_bin := ts_bin ts |}.
+     t_bin := ts_bin ts;
+     t_build := ts_build ts |}.
 
 (* What RuntimeHash writes for one runtime file: per Gen.C11RuntimeHash.loop_writes. *)
 Definition file_stream (f : rfile) : list str :=
@@ -217,10 +221,12 @@ Definition key_eqb (a b : key) : bool :=
 Record tstate := {
   st_bin : option str;     (* the test binary lying in plz-out/bin (None: absent) *)
   st_local : option key;   (* .test_results_<name> exists, with this key in xattr user.plz_test *)
-  st_cache : list key      (* keys under which the directory cache holds a (passing) result *)
+  st_cache : list key;     (* keys under which the directory cache holds a (passing) result *)
+  st_bkey : option (list str);  (* what the binary in plz-out/bin was built from (its rule/source hashes in xattrs) *)
+  st_builds : list (list str)   (* build keys under which the directory cache holds the binary *)
 }.
 
-Definition st0 : tstate := {| st_bin := None; st_local := None; st_cache := [] |}.
+Definition st0 : tstate := {| st_bin := None; st_local := None; st_cache := []; st_bkey := None; st_builds := [] |}.
 
 Inductive report := CachedPass | RanPass | RanFail.
 
@@ -236,7 +242,7 @@ Definition mem_key (k : key) (l : list key) : bool := existsb (key_eqb k) l.
 
 (* rm -rf plz-out: outputs and local results go, the directory cache (outside the tree) stays *)
 Definition rm_plz_out (st : tstate) : tstate :=
-  {| st_bin := None; st_local := None; st_cache := st_cache st |}.
+  {| st_bin := None; st_local := None; st_cache := st_cache st; st_bkey := None; st_builds := st_builds st |}.
 
 (* cacheOutputFiles, called after a run in which every test case succeeded (results.Failures() = 0), as an
    interpreter of Gen.store_steps: a guard stops, moveOutputFile puts the results file with the key in its
@@ -254,29 +260,54 @@ Fixpoint exec_store (cache_on has_args : bool) (k : key) (steps : list store_ste
 
 Definition has_args (a : list str) : bool := match a with [] => false | _ :: _ => true end.
 
+(* The build step before the test.  needsBuilding: the binary is absent or was built from something else.
+   Then, with a directory cache that holds the artifacts of the current build key, they are FETCHED and the
+   target's state becomes Cached (retrieveArtifacts compares outputHash(.., combine) of the old outputs with
+   TargetHasher.OutputHash of the new ones; for a single-output target the two are computed differently, so
+   even an identical binary counts as changed); otherwise the build command runs (state Built, or Unchanged
+   when the output is identical) and its artifacts are stored in the cache. *)
+Definition bkey_eqb : list str -> list str -> bool := list_eqb str_eqb.
+
+Definition needs_build (st : tstate) (t : tdef) : bool :=
+  negb (option_eqb bkey_eqb (st_bkey st) (Some (t_build t))).
+
+Definition fetched (cache_on : bool) (st : tstate) (t : tdef) : bool :=
+  needs_build st t && cache_on && existsb (bkey_eqb (t_build t)) (st_builds st).
+
+(* the build command is executed in this invocation *)
+Definition builds (cache_on : bool) (st : tstate) (t : tdef) : bool :=
+  needs_build st t && negb (fetched cache_on st t).
+
+Definition builds_after (cache_on : bool) (st : tstate) (t : tdef) : list (list str) :=
+  if builds cache_on st t && cache_on then t_build t :: st_builds st else st_builds st.
+
+(* target.State() is Reused/Unchanged: not fetched, and the binary in plz-out/bin is the one the current
+   definition produces (not rebuilt, or rebuilt with equal output hash) *)
+Definition settled (cache_on : bool) (st : tstate) (t : tdef) : bool :=
+  negb (fetched cache_on st t) && option_eqb str_eqb (st_bin st) (Some (t_bin t)).
+
 (* One `plz test` of the target.  [cache_on]: a directory cache is configured.  [a]: the test arguments.
-   Build part: target.State() is Reused/Unchanged exactly when the binary in plz-out/bin is the one the
-   current definition produces (not rebuilt, or rebuilt / fetched with equal output hash); otherwise it is
-   Built/Cached.  needToRun does not look at the test arguments, and the runtime key does not contain them. *)
+   needToRun does not look at the test arguments, and the runtime key does not contain them. *)
 Definition test_step (cache_on : bool) (st : tstate) (t : tdef) (a : list str) : tstate * report :=
   let k := runtime_key t in
-  let settled := option_eqb str_eqb (st_bin st) (Some (t_bin t)) in
   (* needToRun (:144) *)
   let need_to_run :=
-    match settled, st_local st with
+    match settled cache_on st t, st_local st with
     | true, Some l => negb (key_eqb l k)                   (* verifyHash on the local results file only *)
     | _, _ => negb (cache_on && mem_key k (st_cache st))   (* retrieveFromCache *)
     end in
+  let bk := Some (t_build t) in
+  let bs := builds_after cache_on st t in
   if negb need_to_run then
     (* cachedTestResults: what was stored passed (only passes are stored), reported as cached *)
-    ({| st_bin := Some (t_bin t); st_local := Some k; st_cache := st_cache st |}, CachedPass)
+    ({| st_bin := Some (t_bin t); st_local := Some k; st_cache := st_cache st; st_bkey := bk; st_builds := bs |}, CachedPass)
   else
     (* RemoveTestOutputs, run (with the arguments), and on success cacheOutputFiles *)
     if outcome_args t a then
       let lc := exec_store cache_on (has_args a) k store_steps None (st_cache st) in
-      ({| st_bin := Some (t_bin t); st_local := fst lc; st_cache := snd lc |}, RanPass)
+      ({| st_bin := Some (t_bin t); st_local := fst lc; st_cache := snd lc; st_bkey := bk; st_builds := bs |}, RanPass)
     else
-      ({| st_bin := Some (t_bin t); st_local := None; st_cache := st_cache st |}, RanFail).
+      ({| st_bin := Some (t_bin t); st_local := None; st_cache := st_cache st; st_bkey := bk; st_builds := bs |}, RanFail).
 
 (* One step of a history: optionally delete plz-out, then `plz test [-c config] L [-- args]` on the current tree. *)
 Record step := { s_rm : bool; s_config : str; s_args : list str; s_src : tsrc }.
@@ -372,21 +403,32 @@ Definition defect_class (h : list step) : option defect :=
 Record obs := {
   o_report : report;   (* what `plz test` reported for the target, and whether the command really ran *)
   o_fresh : bool;      (* outcome of the same `plz test` invocation on a clean copy of the same tree *)
-  o_nkeys : nat        (* distinct test-result keys of the target in the directory cache afterwards *)
+  o_nkeys : nat;       (* distinct test-result keys of the target in the directory cache afterwards *)
+  o_built : bool       (* the build command of the target was executed in this invocation *)
 }.
 
 Inductive case :=
 | CHist (cache_on : bool) (h : list (step * obs)).
 
+(* the states BEFORE the steps of a history (after the optional rm -rf plz-out of the step) *)
+Fixpoint pre_states (cache_on : bool) (st : tstate) (h : list step) : list tstate :=
+  match h with
+  | [] => []
+  | x :: r => (if s_rm x then rm_plz_out st else st) :: pre_states cache_on (fst (do_step cache_on st x)) r
+  end.
+
 Definition check (c : case) : bool :=
   match c with
   | CHist cache_on h =>
       let r := run cache_on st0 (map fst h) in
+      let p := pre_states cache_on st0 (map fst h) in
       Nat.eqb (length r) (length h)
-      && forallb (fun p =>
-                    let '((st, rep), (x, o)) := p in
+      && forallb (fun q =>
+                    let '((st, rep), (x, o)) := q in
                     report_eqb rep (o_report o)
                     && Bool.eqb (step_outcome x) (o_fresh o)
                     && (negb cache_on || Nat.eqb (nkeys (st_cache st)) (o_nkeys o)))
                  (combine r h)
+      && forallb (fun q => let '(st, (x, o)) := q in Bool.eqb (builds cache_on st (s_def x)) (o_built o))
+                 (combine p h)
   end.
